@@ -49,6 +49,19 @@ class Scratch:
         else:
             log('kept scratch', self.path)
 
+    def rewrite(self, relfile, pattern, repl, min_count):
+        """Mechanical token rewrite in the scratch copy (stated in the evidence). Fewer matches than
+        expected = anchor lost."""
+        p = os.path.join(self.path, relfile)
+        if not os.path.exists(p):
+            raise Undecided('anchor lost: %s does not exist' % relfile)
+        s = open(p).read()
+        s2, n = re.subn(pattern, repl, s)
+        if n < min_count:
+            raise Undecided('anchor lost: pattern %r found %d time(s) in %s, expected >= %d' % (pattern, n, relfile, min_count))
+        open(p, 'w').write(s2)
+        return n
+
     def inject(self, relfile, harness_file, modname='verif_kani'):
         p = os.path.join(self.path, relfile)
         if not os.path.exists(p):
